@@ -118,6 +118,10 @@ class C07(Driver):
                 adv.append({"t": fire, "a": "give", "ch": [i, 0], "v": i * 1000 + 1})
             elif kind == "accept":
                 adv.append({"t": fire, "a": "connect", "p": i})
+            if not last and r.random() < 0.35:
+                # semantically transparent wrappers around the wait (each is built from a hidden fiber or a dynamic
+                # scope): the wait is then suspended, abandoned and resumed *through* them
+                st["wrap"] = [r.choice(["try", "defer", "dyns", "coro", "label", "prompt"]) for _ in range(r.randint(1, 2))]
             if kind in ("take", "give", "select", "selectg") and r.random() < 0.3:
                 # abandoned takers queued on this step's channel before the victim gets there
                 st["prestale"] = [r.choice(["cancel", "select"]) for _ in range(r.randint(1, 3))]
@@ -210,6 +214,19 @@ class C07(Driver):
             if st["end"] == "cframe":
                 inner = "(try %s ([e] (error e)))" % body if st.get("nested") else body
                 body = "(do (var cv nil) (string/replace \"a\" (fn [x] (set cv %s) \"b\") \"xax\") cv)" % inner
+            for wi, w in enumerate(st.get("wrap", [])):
+                if w == "try":
+                    body = "(try %s ([e] (error e)))" % body
+                elif w == "defer":
+                    body = "(defer (sim/ev :cleanup %d %d) %s)" % (i, wi, body)
+                elif w == "dyns":
+                    body = "(with-dyns [:c07-step %d] %s)" % (i, body)
+                elif w == "coro":
+                    body = "(let [cf (fiber/new (fn [] %s) :e) cr (resume cf)] (if (= (fiber/status cf) :error) (propagate cr cf) cr))" % body
+                elif w == "label":
+                    body = "(label wl%d-%d %s)" % (i, wi, body)
+                elif w == "prompt":
+                    body = "(prompt :wp%d-%d %s)" % (i, wi, body)
             if "deadline" in st and st.get("via_label"):
                 body = "(label lbl%d (ev/with-deadline %s (return lbl%d %s)))" % (i, st["deadline"] / 1000.0, i, body)
             elif "deadline" in st:
@@ -356,10 +373,8 @@ class C07(Driver):
             elif st["end"] == "cframe" and cls == "error" and ("coerced from await" in payload or
                                                                  ("channel inside janet_call" in payload and kind in ("take", "give", "select", "selectg"))):
                 ok = True       # (channel operations refuse to start under a C frame: nothing is registered)
-            elif st["end"] == "cframe" and not (kind in ("give", "selectg", "take", "select") and st.get("prestale") is None and False):
-                # under a C frame the wait cannot complete by suspending; it may only complete without waiting
-                # (nothing in these plans lets it), so anything but the coercion error is unexplained
-                ok, why = False, "a wait issued under a C callback returned %s instead of the coercion error" % cls
+            # (a wait under a C frame that can complete without suspending - a giver already waiting, bytes already
+            # in the pipe - simply completes: it is then judged like any other completion of its kind)
             elif kind == "sleep":
                 if payload == "true nil":
                     need = st["ms"] * 1000000
@@ -531,6 +546,18 @@ class C07(Driver):
                     fired = st["end"] == "other" or any(a["a"] == "give" and a["ch"] == [i, 0] and j in ainv for j, a in enumerate(adv))
                 if fired:
                     V("C07/lost-resume/wait=%s" % st["kind"], "step %d never returned although its trigger fired" % i)
+        # ---- a defer around a wait runs its cleanup exactly once, however the wait ended ----
+        ncleanup = {}
+        for e in res.events:
+            if e.kind == "cleanup":
+                ncleanup[e.payload] = ncleanup.get(e.payload, 0) + 1
+        for i, st in steps.items():
+            for wi, w in enumerate(st.get("wrap", [])):
+                if w == "defer" and i in ret:
+                    n = ncleanup.get("%d %d" % (i, wi), 0)
+                    if n != 1:
+                        V("C07/cleanup/defer-around-a-wait-ran-%s/end=%s" % ("twice" if n > 1 else "never", st["end"]),
+                          "step %d (%s): cleanup ran %d times" % (i, st["kind"], n))
         # ---- bystander tasks are untouched by whatever happened to the victim ----
         by = plan.get("by")
         if by:
@@ -643,6 +670,13 @@ class C07(Driver):
             q = cp()
             del q["by"]
             yield q
+        for k, st in enumerate(plan["steps"]):
+            if st.get("wrap"):
+                q = cp()
+                q["steps"][k]["wrap"] = st["wrap"][1:]
+                if not q["steps"][k]["wrap"]:
+                    del q["steps"][k]["wrap"]
+                yield q
         for k, st in enumerate(plan["steps"]):
             if st.get("prestale"):
                 q = cp()
